@@ -294,6 +294,7 @@ def _r(x, alpha, eps):
 @njit
 def _find_root_by_bisection(a, b, alpha, eps, tol=1e-8):
     # find root of function func in interval [a, b] by bisection."""
+    c = (a + b) / 2.  # the bracket may already be tighter than tol
     while b - a > tol:
         c = (a + b) / 2.
         if _r(a, alpha, eps) * _r(c, alpha, eps) < 0:
